@@ -17,6 +17,9 @@ func TestFamily(t *testing.T) {
 		w := newWorld(t, r)
 		cfg := w.initConfig()
 		runHistory(w, nops, i)
+		if i < 4 {
+			sendGuardVectors(w, o)
+		}
 		o.Emit("hist", map[string]any{"init": cfg, "steps": w.steps, "maxseq": hx.U(w.maxSeq + 2),
 			"ids": w.ids.list, "data": w.data.list}, nil)
 	}
